@@ -98,7 +98,9 @@ Proof.
       apply bind_ok in Hz. destruct Hz as [f [Hf Hw]].
       injection Hw as Hw. right. exists f. split; [symmetry; exact Hw|].
       destruct v as [x| | | | |]; try discriminate Er.
-      destruct x; try discriminate Er; cbn in Ez, Hf;
+      destruct x; try discriminate Er;
+        cbn [eq_zero py_float py_float_scalar] in Ez, Hf;
+        try (destruct (exact_int n); [|discriminate Hf]);
         injection Ez as Ez; injection Hf as Hf; subst f.
       + destruct b; [reflexivity|discriminate Ez].
       + unfold fl_is_zero, fl_of_int. lia.
@@ -200,9 +202,12 @@ Proof.
     + destruct (all_len (length r) (r :: l')); [|discriminate H].
       apply bind_ok in H. destruct H as [f [_ H]]. injection H as H.
       right. right. exists f. symmetry. exact H.
-  - injection H as H. left. exists x. symmetry. exact H.
-  - injection H as H. right. left. exists l. symmetry. exact H.
-  - injection H as H. right. right. exists l. symmetry. exact H.
+  - destruct (arr_exact d [x]); [|discriminate H].
+    injection H as H. left. exists x. symmetry. exact H.
+  - destruct (arr_exact d l); [|discriminate H].
+    injection H as H. right. left. exists l. symmetry. exact H.
+  - destruct (arr_exact d (concat l)); [|discriminate H].
+    injection H as H. right. right. exists l. symmetry. exact H.
 Qed.
 
 Lemma py_str_out : forall v w,
